@@ -221,15 +221,18 @@ def position : M UInt64 := do
 class IsMethod (μ : Type) where
   toModel : μ → Model.Method
 
-/-- `inner.switch_to(method, level)`: the model's `switchTo` (finish the current encoder - its whole
-output goes to the sink or into the ZipCrypto buffer -, check the level, start the new encoder) -/
+/-- `inner.switch_to(method, level)` as the translated `ZipWriter` methods call it: the model's `switchTo`
+(finish the current encoder - its whole output goes to the sink or into the ZipCrypto buffer -, check the
+level, start the new encoder).  `Tie/SwitchTo.lean` proves the TRANSLATED `GenericZipWriter::switch_to`
+(`Gen/SwitchTo.lean`, over `GZW` below) equal to this function. -/
 def switch_to {μ : Type} [IsMethod μ] (ext : Ext) (i : Inner) (m : μ) (level : Option Int32) :
     M (Except ZErr Unit × Inner) := do
   let (r, s) ← Model.switchTo ext.toWExt (IsMethod.toModel m) (level.map Int32.toInt) { WState.init with inner := i }
   pure (r, s.inner)
 
 /-- `ZipCryptoWriter::finish(crc32)`: patch the check byte into the 12-byte header, encrypt the
-buffer, hand it to the sink (`write_all`), `flush`; the value is the bare sink -/
+buffer, hand it to the sink (`write_all`), `flush`; the value is the bare sink.  `Tie/ZcFinish.lean` links this
+with the translated `Gen.ZipCryptoWriter.finish` over the model's device. -/
 def zc_finish (ext : Ext) (e : EncState) (crc : UInt32) : M Unit :=
   if e.buffer.length < 12 then M.panic "zipcrypto.rs:133 buffer[11]" else do
     M.writeAll (ext.zcEncrypt e.pw (e.buffer.take 11 ++ [(crc >>> 24).toUInt8] ++ e.buffer.drop 12))
@@ -238,5 +241,93 @@ def zc_finish (ext : Ext) (e : EncState) (crc : UInt32) : M Unit :=
 /-- `ZipCryptoWriter::write` / `write_all`: the bytes are buffered until `finish` -/
 def zc_write (e : EncState) (bs : Bytes) : EncState := { e with buffer := e.buffer ++ bs }
 
+/-! ### `GenericZipWriter` as the Rust enum, for the translation of ITS OWN methods (`switch_to`,
+`current_compression`; `rs2lean/src/t6w3.rs`, tie: `Tie/SwitchTo.lean`) -/
+
+/-- a flate2 / bzip2 / zstd write-side encoder over `MaybeEncrypted<W>`: its level, what it wraps
+(`none` = the bare sink, `some` = the ZipCrypto layer), the plaintext it has consumed -/
+structure Enc where
+  level : Int
+  inner : Option EncState
+  pending : Bytes
+
+/-- `GenericZipWriter<W>`, one constructor per variant (features deflate, bzip2, zstd on) -/
+inductive GZW
+  | Storer (w : Option EncState)
+  | Deflater (w : Enc)
+  | Bzip2 (w : Enc)
+  | Zstd (w : Enc)
+  | Closed
+
+/-- the compressor stack of the model (`Model.Inner`) that a Rust value stands for -/
+def GZW.toInner : GZW → Inner
+  | .Storer w => .storer w
+  | .Deflater w => .compressor .deflated w.level w.inner w.pending
+  | .Bzip2 w => .compressor .bzip2 w.level w.inner w.pending
+  | .Zstd w => .compressor .zstd w.level w.inner w.pending
+  | .Closed => .closed
+
+/-- `x?` on an operation of the external vocabulary that reports its own errors as a value -/
+def tryM (m : M (Except ZErr α)) (st : σ) : S σ α := ofM (m >>= fun r => match r with
+  | .ok a => pure (.ok a)
+  | .error e => pure (.error (e, st)))
+
+/-- `encoder.finish()` (before `?`): the encoder's whole output - `ext.compress` of everything it consumed -
+goes to what it wraps: appended to the ZipCrypto buffer, or ONE `write_all` on the sink; the value is the
+wrapped `MaybeEncrypted<W>`.  When that write fails the encoder is dropped with the error, and flate2's /
+bzip2's destructors (`retry`) try the same write once more, result ignored; zstd's has no such destructor. -/
+def enc_finish (ext : Ext) (m : Method) (retry : Bool) (w : Enc) : M (Except ZErr (Option EncState)) :=
+  match w.inner with
+  | some e => pure (.ok (some { e with buffer := e.buffer ++ ext.compress m w.level w.pending }))
+  | none => do
+    let r ← M.attempt (M.writeAll (ext.compress m w.level w.pending))
+    match r with
+    | .ok _ => pure (.ok none)
+    | .error e =>
+      if retry then do
+        let _ ← M.attempt (M.writeAll (ext.compress m w.level w.pending))
+        pure (.error e)
+      else pure (.error e)
+
+def DeflateEncoder.finish (ext : Ext) (w : Enc) := enc_finish ext .deflated true w
+def BzEncoder.finish (ext : Ext) (w : Enc) := enc_finish ext .bzip2 true w
+def ZstdEncoder.finish (ext : Ext) (w : Enc) := enc_finish ext .zstd false w
+
+/-- `flate2::Compression::new(level)` / `bzip2::Compression::new(level)`: the level as a number -/
+def flate2_Compression_new (level : UInt32) : Int := level.toNat
+def bzip2_Compression_new (level : UInt32) : Int := level.toNat
+/-- `DeflateEncoder::new(w, level)` / `BzEncoder::new(w, level)`: nothing consumed yet -/
+def DeflateEncoder.new (w : Option EncState) (level : Int) : Enc := ⟨level, w, []⟩
+def BzEncoder.new (w : Option EncState) (level : Int) : Enc := ⟨level, w, []⟩
+/-- `ZstdEncoder::new(w, level)` (an `io::Result`; assumed `Ok` - it fails only when the library cannot
+allocate its context) -/
+def ZstdEncoder.new (w : Option EncState) (level : Int32) : Option Enc := some ⟨level.toInt, w, []⟩
+
+/-- the level constants of the three libraries (flate2 1.x, bzip2 0.4, zstd 0.11) -/
+def flate2_level_none : UInt32 := 0
+def flate2_level_fast : UInt32 := 1
+def flate2_level_best : UInt32 := 9
+def flate2_level_default : UInt32 := 6
+def bzip2_level_none : UInt32 := 0
+def bzip2_level_fast : UInt32 := 1
+def bzip2_level_best : UInt32 := 9
+def bzip2_level_default : UInt32 := 6
+def zstd_DEFAULT_COMPRESSION_LEVEL : Int32 := 3
+
 end S
+
+/-- `std::ops::RangeInclusive<T>` -/
+structure RangeIncl (α : Type) where
+  lo : α
+  hi : α
+/-- `range.contains(&v)` -/
+def RangeIncl.contains {α} [LE α] [DecidableLE α] (r : RangeIncl α) (v : α) : Bool := decide (r.lo ≤ v ∧ v ≤ r.hi)
+
+instance : As UInt32 Int32 := ⟨UInt32.toInt32⟩
+instance : As Int32 UInt32 := ⟨Int32.toUInt32⟩
+instance : As Int32 Int32 := ⟨id⟩
+
+/-- `zstd::compression_level_range()` (`ZSTD_minCLevel() ..= ZSTD_maxCLevel()`) -/
+def S.zstd_compression_level_range : RangeIncl Int32 := ⟨-131072, 22⟩
+
 end Rs
